@@ -92,7 +92,9 @@ theorem downloadFile_frame (srv : Server) (w : World) : SameMarks w (downloadFil
     · rename_i w1 n heq; rw [heq] at h
       split
       · exact h.marks
-      · exact h.marks.trans (downloadResume_frame srv w1 _)
+      · split
+        · exact h.marks
+        · exact h.marks.trans (downloadResume_frame srv w1 _)
   · exact downloadResume_frame srv w none
 
 theorem downloadLoop_frame (srv : Server) (good : Bytes → Bool) (n : Nat) :
